@@ -24,7 +24,7 @@ class C04(object):
     exhaustive = {'thorough': True}
 
     def gen(self, rng, tier):
-        n_cases = 300 if tier == 'quick' else 6000
+        n_cases = 300 if tier == 'quick' else 30000
         if tier == 'thorough':
             for n in (1, 2, 3):
                 base = gen.rand_dist_case(rng, nmin=n, nmax=n, bases=['linear'], allow_space=False, allow_names=False)
